@@ -730,6 +730,40 @@ fn run_builder(v: &Value, out: &mut Vec<String>) {
     out.push(json!({"e":"bresult","refused_at":refused_at}).to_string());
 }
 
+// ------------------------------------------------------------------ two threads launching in tight loops (no gate: the
+// kernel picks the interleavings); every child reports what it was started with
+fn run_stress(v: &Value, out: &mut Vec<String>) {
+    use subprocess::PopenConfig;
+    let n = v["launches"].as_u64().unwrap_or(40) as usize;
+    out.push(json!({"e":"pre","fds":fd_table()}).to_string());
+    let mk = |tag: &'static str, piped: bool, n: usize| {
+        let vch = vchild();
+        std::thread::spawn(move || {
+            let mut pids = vec![];
+            for _ in 0..n {
+                let cfg = PopenConfig {
+                    stdout: if piped { Redirection::Pipe } else { Redirection::None },
+                    ..Default::default()
+                };
+                if let Ok(mut p) = Popen::create(&[vch.as_str(), "@exit", "0", tag], cfg) {
+                    if let Some(pid) = p.pid() {
+                        pids.push(pid);
+                    }
+                    p.stdout.take();
+                    let _ = p.wait();
+                }
+            }
+            pids
+        })
+    };
+    let a = mk("A", true, n);
+    let b = mk("B", false, n);
+    let mut pids = a.join().unwrap_or_default();
+    pids.extend(b.join().unwrap_or_default());
+    out.push(json!({"e":"hresult","ok":pids.len() == 2 * n,"panicked":false}).to_string());
+    stage_reports(out, &pids);
+}
+
 // ------------------------------------------------------------------ two threads launching concurrently (C08)
 fn run_race(v: &Value, out: &mut Vec<String>) {
     use std::sync::atomic::Ordering;
@@ -861,6 +895,7 @@ fn run_one_body(v: &Value, out: &mut Vec<String>) {
             }
         }
         "handle" => run_handle(v, out),
+        "stress" => run_stress(v, out),
         "builder" => run_builder(v, out),
         "race" => run_race(v, out),
         x => panic!("bad kind {}", x),
